@@ -354,6 +354,12 @@ func zvC25Run(r *vh.Run, sc zvScenario, bound int, only []int) {
 		return
 	}
 	s, n := r.Shard()
+	if sc.timed && !r.Thorough() {
+		bound = 1 // session scenarios run next to ~10 FSM/sender goroutines: one preemption in the quick tier, two in the thorough one
+	}
+	if sc.timed && r.Thorough() {
+		bound = 2
+	}
 	e := &vsched.Explorer{Bound: bound, Body: body, Check: check, Shard: s, NShards: n, Stop: r.OutOfBudget, Cfg: vsched.Config{Sites: true}}
 	e.Run()
 	if e.Err != nil {
@@ -376,7 +382,8 @@ func zvC25Run(r *vh.Run, sc zvScenario, bound int, only []int) {
 func zvBlockedFns(desc string) []string {
 	set := map[string]bool{}
 	for _, part := range strings.Split(desc, "; ") {
-		if !strings.Contains(part, "(op") && !strings.Contains(part, "(follow-up)") {
+		// operation threads wherever they are stuck, other threads only when they wait for a lock (a lock cycle involves them)
+		if !strings.Contains(part, "(op") && !strings.Contains(part, "(follow-up)") && !strings.Contains(part, "Lock(") {
 			continue
 		}
 		i := strings.Index(part, "blocked at ")
@@ -394,6 +401,11 @@ func zvBlockedFns(desc string) []string {
 		}
 		if k := strings.Index(op, " "); k > 0 {
 			op = op[:k]
+		}
+		// same vocabulary as vsched.Execution.BlockedIn
+		op = map[string]string{"RWMutex.Lock": "Lock(acquire)", "RWMutex.RLock": "RLock", "Mutex.Lock": "Lock", "WaitGroup.Wait": "Wait"}[op] + ""
+		if op == "" {
+			op = strings.Fields(rest)[0]
 		}
 		set[op+"@"+fn] = true
 	}
